@@ -786,4 +786,144 @@ theorem lineRangesIncl_spec (w : Wave) (hdt : 0 < w.dt) (k : Nat)
     simp only [List.range_succ_eq_map, List.map_cons, List.map_map]
     simp
 
+/-! ## timing encoded in the info wave -/
+
+theorem findIdx_append_false {α} (p : α → Bool) (A B : List α) (h : ∀ x ∈ A, p x = false) :
+    (A ++ B).findIdx p = A.length + B.findIdx p := by
+  induction A with
+  | nil => simp
+  | cons a t ih =>
+    have ha := h a (by simp)
+    have := ih (fun x hx => h x (List.mem_cons_of_mem _ hx))
+    simp only [List.cons_append, List.findIdx_cons, ha, cond_false, this, List.length_cons]
+    omega
+
+theorem argmaxBool_append (p : Nat → Bool) (A : List Nat) (b : Nat) (B : List Nat)
+    (h : ∀ x ∈ A, p x = false) (hb : p b = true) : argmaxBool p (A ++ b :: B) = A.length := by
+  unfold argmaxBool
+  rw [findIdx_append_false p A (b :: B) h]
+  simp [List.findIdx_cons, hb]
+
+/-- a pixel of `k` used samples: `k − 1` ones and the boundary code -/
+def pixelCodes (k : Nat) : List Nat := List.replicate (k - 1) 1 ++ [2]
+
+theorem pixelCodes_cons (k : Nat) (tail : List Nat) :
+    ∃ c t, pixelCodes k ++ tail = c :: t ∧ c ≠ 0 := by
+  unfold pixelCodes
+  cases k - 1 with
+  | zero => exact ⟨2, tail, by simp, by decide⟩
+  | succ n => exact ⟨1, List.replicate n 1 ++ [2] ++ tail, by simp [List.replicate_succ], by decide⟩
+
+theorem firstPixelIdx_regular (lead k : Nat) (hk : 0 < k) (tail : List Nat) :
+    firstPixelIdx (List.replicate lead 0 ++ (pixelCodes k ++ tail)) = some (lead, lead + k - 1) := by
+  have h2 : argmaxBool (· == 2) (List.replicate lead 0 ++ (pixelCodes k ++ tail)) = lead + (k - 1) := by
+    have : List.replicate lead 0 ++ (pixelCodes k ++ tail)
+        = (List.replicate lead 0 ++ List.replicate (k - 1) 1) ++ 2 :: tail := by
+      simp [pixelCodes]
+    rw [this, argmaxBool_append _ _ _ _ _ (by rfl)]
+    · simp
+    · intro x hx
+      rcases List.mem_append.mp hx with hx | hx
+      · rw [(List.mem_replicate.mp hx).2]; rfl
+      · rw [(List.mem_replicate.mp hx).2]; rfl
+  have h0 : argmaxBool (· != 0) (List.replicate lead 0 ++ (pixelCodes k ++ tail)) = lead := by
+    rcases pixelCodes_cons k tail with ⟨c, t, hc, hc0⟩
+    rw [hc, argmaxBool_append _ _ _ _ _ (by simpa using hc0)]
+    · simp
+    · intro x hx; rw [(List.mem_replicate.mp hx).2]; rfl
+  unfold firstPixelIdx
+  have hne : List.replicate lead 0 ++ (pixelCodes k ++ tail) ≠ [] := by
+    simp [pixelCodes]
+  rw [if_neg hne]
+  simp only [h2, h0]
+  have hget : (List.replicate lead 0 ++ (pixelCodes k ++ tail)).getD (lead + (k - 1)) 0 = 2 := by
+    have : List.replicate lead 0 ++ (pixelCodes k ++ tail)
+        = (List.replicate lead 0 ++ List.replicate (k - 1) 1) ++ 2 :: tail := by
+      simp [pixelCodes]
+    rw [this, List.getD_eq_getElem?_getD, List.getElem?_append_right (by simp)]
+    simp
+  rw [if_neg (by rw [hget]; simp)]
+  congr 2; omega
+
+theorem times_length (t0 dt : Int) : ∀ n, (times t0 dt n).length = n
+  | 0 => rfl
+  | n + 1 => by simp [times, times_length (t0 + dt) dt n]
+
+theorem times_add (dt : Int) : ∀ (a b : Nat) (t0 : Int),
+    times t0 dt (a + b) = times t0 dt a ++ times (t0 + a * dt) dt b
+  | 0, b, t0 => by simp [times]
+  | a + 1, b, t0 => by
+    have : a + 1 + b = (a + b) + 1 := by omega
+    rw [this]
+    simp only [times, List.cons_append, times_add dt a b (t0 + dt)]
+    have e : ((a + 1 : Nat) : Int) * dt = a * dt + dt := by
+      rw [Int.natCast_add, Int.add_mul]; simp
+    rw [e]
+    congr 3
+    omega
+
+theorem usedOf_append {α} : ∀ (A B : List Nat) (xs ys : List α), xs.length = A.length →
+    usedOf (A ++ B) (xs ++ ys) = usedOf A xs ++ usedOf B ys
+  | [], B, [], ys, _ => by simp [usedOf]
+  | [], B, _ :: _, ys, h => by simp at h
+  | _ :: _, B, [], ys, h => by simp at h
+  | c :: cs, B, x :: xs, ys, h => by
+    simp only [List.cons_append, usedOf]
+    rw [usedOf_append cs B xs ys (by simpa using h)]
+    split <;> simp
+
+theorem usedOf_zeros {α} : ∀ (n : Nat) (xs : List α), usedOf (List.replicate n 0) xs = []
+  | 0, xs => by simp [usedOf]
+  | n + 1, [] => by simp [usedOf, List.replicate_succ]
+  | n + 1, x :: xs => by simp [usedOf, List.replicate_succ, usedOf_zeros n xs]
+
+theorem usedOf_nonzero {α} : ∀ (A : List Nat) (xs : List α), (∀ c ∈ A, c ≠ 0) → xs.length = A.length →
+    usedOf A xs = xs
+  | [], [], _, _ => by simp [usedOf]
+  | [], _ :: _, _, h => by simp at h
+  | _ :: _, [], _, h => by simp at h
+  | c :: cs, x :: xs, hc, h => by
+    simp only [usedOf]
+    rw [if_neg (hc c (by simp)), usedOf_nonzero cs xs (fun c' h' => hc c' (List.mem_cons_of_mem _ h')) (by simpa using h)]
+
+/-- a wave whose first line is regular: lead-in, `P·k` consecutive used samples the first `k` of which
+    form the first pixel, `dead` discarded samples, then the next used sample -/
+structure FirstLine (w : Wave) (lead k P dead : Nat) (more rest : List Nat) (c : Nat) : Prop where
+  hk : 0 < k
+  hP : 0 < P
+  iw : w.iw = List.replicate lead 0 ++ ((pixelCodes k ++ more) ++ (List.replicate dead 0 ++ c :: rest))
+  len : (pixelCodes k ++ more).length = P * k
+  used : ∀ x ∈ more, x ≠ 0
+  next : c ≠ 0
+
+theorem pixelCodes_length (k : Nat) (hk : 0 < k) : (pixelCodes k).length = k := by
+  simp [pixelCodes]; omega
+
+theorem usedTs_regular (w : Wave) (lead k P dead : Nat) (more rest : List Nat) (c : Nat)
+    (h : FirstLine w lead k P dead more rest c) :
+    w.usedTs = times (w.start + lead * w.dt) w.dt (P * k) ++
+      (w.start + lead * w.dt + (P * k : Nat) * w.dt + dead * w.dt) ::
+        usedOf rest (times (w.start + lead * w.dt + (P * k : Nat) * w.dt + dead * w.dt + w.dt) w.dt rest.length) := by
+  unfold Wave.usedTs Wave.allTs
+  rw [h.iw]
+  have hlen : (List.replicate lead 0 ++ ((pixelCodes k ++ more) ++ (List.replicate dead 0 ++ c :: rest))).length
+      = lead + (P * k + (dead + (rest.length + 1))) := by
+    simp only [List.length_append, List.length_replicate, List.length_cons]
+    have := h.len
+    simp only [List.length_append] at this
+    omega
+  rw [hlen, times_add, times_add, times_add]
+  rw [usedOf_append _ _ _ _ (by simp [times_length]), usedOf_zeros]
+  rw [usedOf_append _ _ _ _ (by rw [times_length, h.len])]
+  rw [usedOf_nonzero _ _ _ (by rw [times_length, h.len])]
+  · rw [usedOf_append _ _ _ _ (by simp [times_length]), usedOf_zeros]
+    simp only [times, usedOf, if_neg h.next, List.nil_append]
+  · intro x hx
+    rcases List.mem_append.mp hx with hx | hx
+    · unfold pixelCodes at hx
+      rcases List.mem_append.mp hx with hx | hx
+      · rw [(List.mem_replicate.mp hx).2]; decide
+      · simp at hx; omega
+    · exact h.used x hx
+
 end Verif.C03
